@@ -219,7 +219,14 @@ def check(ctx: Ctx) -> None:
                                                  "early channel reconfigure changes what every other channel of that side decodes", construct="gateway strconfig for channel id")
                 else:
                     n_ch += 1
-                    if zero is not False or "channelid" not in str(e.target):
+                    tgt = str(e.target)
+                    base = tgt.rsplit(".", 1)[0]
+                    if "channelid" not in tgt and base in st.env:
+                        # the channel reached through a local: it must be the result of `<factory>.new(<the frame's channel id>)`
+                        mk = [c_ for c_ in st.events if c_.kind == "call" and c_.result == st.env[base]]
+                        if mk and str(mk[0].callee or "").endswith("_channelfactory.new") and mk[0].args[:1] == (CID,):
+                            tgt = f"{mk[0].callee}({mp}.channelid)._strconfig"
+                    if zero is not False or "channelid" not in tgt:
                         ob.violation(fr, e.node, "RECONFIGURE for a channel id does not configure exactly that channel", construct="channel strconfig target")
         ob.site(fr, fr.node, "gateway-level switches only for id 0, channel-level for the named id", gateway_stores=n_gw, channel_stores=n_ch)
         ob.require(n_gw >= 1 and n_ch >= 1, f"_reconfigure: stores on paths: gateway {n_gw}, channel {n_ch}")
